@@ -62,6 +62,19 @@ class Lifter:
             params = [b.local_name(i) for i in range(2, b.argc + 1)]
             ptys = {b.local_name(i): b.locals[i]["ty"] for i in range(2, b.argc + 1)}
             self.templates.append((g, r, params, ptys))
+        # the field of Board holding the inner position state (role: what Board::hash reads through)
+        ht = [t for (g, t, p, pt) in self.templates if g == "hash"][0]
+        self.inner_field = ht[1][2] if ht[0] == "field" and ht[1][0] == "field" else None
+        if self.inner_field:
+            inner = ("field", ("obj", "self"), self.inner_field)
+
+            def repl(e):
+                if e == inner:
+                    return ("zbvar",)
+                if isinstance(e, tuple):
+                    return tuple(repl(x) if isinstance(x, tuple) else x for x in e)
+                return e
+            self.templates = [(g, repl(t), p, pt) for (g, t, p, pt) in self.templates]
         self.cache = {}
 
     # ------------------------------------------------------------------ matching
@@ -69,6 +82,8 @@ class Lifter:
         """unify template t against expression e"""
         if isinstance(t, tuple) and t and t[0] == "obj":
             return self.bindv(bind, "$self", e)
+        if isinstance(t, tuple) and t and t[0] == "zbvar":
+            return self.bindv(bind, "$zb", e)
         if isinstance(t, tuple) and t and t[0] == "param":
             return self.bindv(bind, t[1], e)
         if isinstance(t, tuple) and len(t) == 3 and t[0] == "cast" and t[2][0] == "discr" and t[2][1][0] == "param" \
@@ -116,12 +131,26 @@ class Lifter:
             bind = {}
             if self.match(t, e, bind, ptys):
                 args = tuple(self.lift(bind[p]) for p in params)
-                return ("get", g, self.lift(bind.get("$self", ("obj", "self")))) + args
+                if "$zb" in bind:
+                    zb = bind["$zb"]
+                    if zb[0] == "field" and zb[2] == self.inner_field:
+                        board = self.lift(zb[1])
+                    else:
+                        board = ("zb", self.lift_version(zb))
+                else:
+                    board = self.lift(bind.get("$self", ("obj", "self")))
+                return ("get", g, board) + args
         if k == "ptr":
             # pointer to (part of) a board: represent by what it points to, where known
             return ("ptr", e[1], tuple((h[0], self.lift(h[1]) if isinstance(h[1], tuple) else h[1]) for h in e[2]), e[3])
         out = tuple(self.lift(x) if isinstance(x, tuple) else x for x in e)
         return self.simplify(out)
+
+    def lift_version(self, zb):
+        """a version of the inner position state: keep it opaque but stable"""
+        if zb[0] == "post":
+            return ("post", zb[1].rsplit("::", 1)[-1], zb[2])
+        return self.lift(zb)
 
     def simplify(self, e):
         k = e[0]
@@ -166,11 +195,56 @@ class Lifter:
         return e
 
 
+PLACEMENT_FIELDS = ("pieces", "colors")
+
+
 def deref_self(p):
+    """identity of the board a placement query (king, piece_on, color_on) is asked of: updates of
+    fields other than the placement arrays are stripped"""
     if isinstance(p, tuple) and p[0] == "ptr" and not p[2]:
         if p[1][0] == "P":
             return ("obj", p[1][1])
+    if isinstance(p, tuple) and p[0] == "ref":
+        return board_identity(p[1])
     return p
+
+
+def board_identity(v):
+    if v[0] == "agg" and v[1] == B:
+        fields = dict(v[4])
+        for n, x in fields.items():
+            s = strip_nonplacement(x)
+            if s[0] == "field" and s[1][0] == "obj" and s[2] == n:
+                return s[1]
+    if v[0] == "with":
+        s = v
+        while s[0] == "with":
+            s = s[1]
+        if s[0] == "obj":
+            # only sound if no placement field was updated
+            w = v
+            while w[0] == "with":
+                if w[2][0] == "f":
+                    inner = w[3]
+                    if any_placement_update(inner):
+                        return ("boardval", v)
+                w = w[1]
+            return s
+    return ("boardval", v) if v[0] != "obj" else v
+
+
+def any_placement_update(x):
+    while isinstance(x, tuple) and x and x[0] == "with":
+        if x[2][0] == "f" and x[2][1] in PLACEMENT_FIELDS:
+            return True
+        x = x[1]
+    return False
+
+
+def strip_nonplacement(x):
+    while isinstance(x, tuple) and x and x[0] == "with" and x[2][0] == "f" and x[2][1] not in PLACEMENT_FIELDS:
+        x = x[1]
+    return x
 
 
 def relrank(r, c):
